@@ -3,11 +3,11 @@
 # exits before running tests: the demo is compiled with the package's non-test files only.
 set -u
 export GOFLAGS=-mod=mod GOPROXY=off GOSUMDB=off GOTOOLCHAIN=local
-ID=$1; V=$2; WT=/tmp/wt_$ID; S=$WT/_seed
+ID=$1; V=$2; DIR=${3:-app}; WT=${WT_PREFIX:-/tmp/wt_}$ID; S=$WT/_seed
 cd $WT || exit 2
 git checkout -q -- . ; git clean -fdq -e _seed
-cp $S/demo_${V}_test.go app/zz_seed_${V}_test.go
-run() { SEED_DEMO_B=1 go test -ldflags=-checklinkname=0 -vet=off -count=1 -run 'TestSeed' $(ls app/*.go | grep -v -e application_test.go -e controller_test.go) 2>&1 | grep -E "^(ok|FAIL|--- FAIL|PASS|exit status)" | head -5; }
+cp $S/demo_${V}_test.go $DIR/zz_seed_${V}_test.go
+run() { ( cd $DIR && SEED_DEMO_B=1 go test -ldflags=-checklinkname=0 -vet=off -count=1 -run 'TestSeed' $(ls *.go | grep -v _test.go) zz_seed_${V}_test.go 2>&1 | grep -E "^(ok|FAIL|--- FAIL|PASS|exit status)" | head -5 ); }
 echo "--- demo WITHOUT change"; run
 git apply $S/$V.diff || { echo "DOES NOT APPLY"; exit 2; }
 echo "--- demo WITH change"; run
